@@ -397,7 +397,7 @@ theorem authorizeWith_snd_err (p : Bool) (tok : Token) (s : AuthState) (w : Worl
 theorem authorizeWith_fst_false (tok : Token) (s : AuthState) :
     (authorizeWith cfg false tok s).1 =
       match authorityPhase cfg tok.authority s with
-      | (w, .error _) => { s with world := w }
+      | (w, .error _) => { s with world := w, dirty := true }
       | (w, .ok _) => { s with world := w, dirty := true } := by
   unfold authorizeWith
   split
